@@ -49,7 +49,18 @@ class Check:
         self.samples = []
         self.infra_errors = []
         self.t0 = time.time()
-        self.workdir = os.path.join(run.BUILD, "work", prop)
+        # one directory per run (concurrent runs of the same property must not collide);
+        # directories of earlier runs that are no longer in use are removed
+        base = os.path.join(run.BUILD, "work")
+        os.makedirs(base, exist_ok=True)
+        for d in os.listdir(base):
+            if d.startswith(prop + "-"):
+                try:
+                    pid = int(d.rsplit("-", 1)[1])
+                    os.kill(pid, 0)
+                except (ValueError, ProcessLookupError, PermissionError):
+                    shutil.rmtree(os.path.join(base, d), ignore_errors=True)
+        self.workdir = os.path.join(base, "%s-%s-%d" % (prop, tier, os.getpid()))
         shutil.rmtree(self.workdir, ignore_errors=True)
         os.makedirs(self.workdir, exist_ok=True)
         self.known = [k for k in load_known_findings().get("open", []) if k["property"] == prop]
